@@ -480,3 +480,103 @@ unsafe impl Hal for LedgerHal {
         with(|l| l.unshare(paddr, buffer, direction.into(), access_platform))
     }
 }
+
+/// A second Hal for the multi-billion-operation sweeps (C05 index space, C17 counter wrap): DMA
+/// allocation still goes through the ledger, but share/unshare are the identity with O(1)
+/// bookkeeping (a counter of outstanding shares), as on a machine without an IOMMU.
+pub struct FastHal;
+
+thread_local! {
+    pub static FAST_OUTSTANDING: std::cell::Cell<i64> = const { std::cell::Cell::new(0) };
+    pub static FAST_SHARES: std::cell::Cell<u64> = const { std::cell::Cell::new(0) };
+}
+
+// SAFETY: as LedgerHal for dma_alloc/dma_dealloc; share returns the buffer's own address, which is a
+// valid device address in an identity-mapped system.
+unsafe impl Hal for FastHal {
+    fn dma_alloc(pages: usize, direction: BufferDirection, access_platform: bool) -> (PhysAddr, NonNull<u8>) {
+        with(|l| l.dma_alloc(pages, direction.into(), access_platform))
+    }
+    unsafe fn dma_dealloc(paddr: PhysAddr, vaddr: NonNull<u8>, pages: usize, access_platform: bool) -> i32 {
+        with(|l| l.dma_dealloc(paddr, vaddr, pages, access_platform))
+    }
+    unsafe fn mmio_phys_to_virt(paddr: PhysAddr, _size: usize) -> NonNull<u8> {
+        NonNull::new((paddr.wrapping_add(MMIO_VOFF)) as usize as *mut u8).unwrap()
+    }
+    unsafe fn share(buffer: NonNull<[u8]>, _direction: BufferDirection, _access_platform: bool) -> PhysAddr {
+        FAST_OUTSTANDING.with(|c| c.set(c.get() + 1));
+        FAST_SHARES.with(|c| c.set(c.get() + 1));
+        buffer.as_ptr() as *mut u8 as usize as PhysAddr
+    }
+    unsafe fn unshare(_paddr: PhysAddr, _buffer: NonNull<[u8]>, _direction: BufferDirection, _access_platform: bool) {
+        FAST_OUTSTANDING.with(|c| c.set(c.get() - 1));
+    }
+}
+
+/// Raw device-side view of one queue's memory for the fast sweeps (pointers obtained once from the
+/// ledger's region table, so they carry the allocation's provenance).
+#[derive(Clone, Copy)]
+pub struct FastQ {
+    pub desc: *mut u8,
+    pub avail: *mut u8,
+    pub used: *mut u8,
+    pub size: u16,
+}
+
+impl FastQ {
+    pub fn new(desc: u64, avail: u64, used: u64, size: u16) -> Option<FastQ> {
+        with(|l| {
+            let d = l.resolve(desc, 16 * size as usize).ok()?.0;
+            let a = l.resolve(avail, 6 + 2 * size as usize).ok()?.0;
+            let u = l.resolve(used, 6 + 8 * size as usize).ok()?.0;
+            Some(FastQ { desc: d, avail: a, used: u, size })
+        })
+    }
+    #[inline]
+    fn r16(p: *mut u8, off: usize) -> u16 {
+        // SAFETY: offsets are inside the regions resolved in new(); volatile because the driver also accesses them.
+        unsafe { (p.add(off) as *const u16).read_volatile() }
+    }
+    #[inline]
+    fn w16(p: *mut u8, off: usize, v: u16) {
+        // SAFETY: as above.
+        unsafe { (p.add(off) as *mut u16).write_volatile(v) }
+    }
+    #[inline]
+    fn w32(p: *mut u8, off: usize, v: u32) {
+        // SAFETY: as above.
+        unsafe { (p.add(off) as *mut u32).write_volatile(v) }
+    }
+    #[inline]
+    pub fn avail_idx(&self) -> u16 {
+        Self::r16(self.avail, 2)
+    }
+    #[inline]
+    pub fn avail_flags(&self) -> u16 {
+        Self::r16(self.avail, 0)
+    }
+    #[inline]
+    pub fn avail_ring(&self, slot: u16) -> u16 {
+        Self::r16(self.avail, 4 + 2 * slot as usize)
+    }
+    #[inline]
+    pub fn used_event(&self) -> u16 {
+        Self::r16(self.avail, 4 + 2 * self.size as usize)
+    }
+    #[inline]
+    pub fn set_used_flags(&self, v: u16) {
+        Self::w16(self.used, 0, v)
+    }
+    #[inline]
+    pub fn set_avail_event(&self, v: u16) {
+        Self::w16(self.used, 4 + 8 * self.size as usize, v)
+    }
+    #[inline]
+    pub fn complete(&self, used_idx: &mut u16, id: u16, len: u32) {
+        let slot = (*used_idx & (self.size - 1)) as usize;
+        Self::w32(self.used, 4 + 8 * slot, id as u32);
+        Self::w32(self.used, 8 + 8 * slot, len);
+        *used_idx = used_idx.wrapping_add(1);
+        Self::w16(self.used, 2, *used_idx);
+    }
+}
